@@ -465,6 +465,14 @@ pub const META_RECEIVERS: [&str; 28] = [
     "E2", "E3", "EH", "WR", "MP",
 ];
 
+pub fn receiver_names(mode: &str) -> Vec<&'static str> {
+    if mode == "map" {
+        vec!["MP", "F3"]
+    } else {
+        META_RECEIVERS.to_vec()
+    }
+}
+
 fn choose_faults(g: &mut Gen, frng: &mut Rng, mode: &str) -> Env {
     let mut env = Env::default();
     let r = frng.below(100);
@@ -623,7 +631,7 @@ pub fn generate(run_seed: u64, mode: &'static str, recvs: &'static std::collecti
         allow,
         max_depth: if mode == "wild" && grng.pct(10) { grng.range(4, 40) } else { grng.range(1, 3) },
     };
-    let names: Vec<&'static str> = if mode == "map" { vec!["MP", "F3"] } else { META_RECEIVERS.to_vec() };
+    let names: Vec<&'static str> = receiver_names(mode);
     let receiver = *grng.pick(&names);
     let d = recvs.get(receiver).expect("schema").clone();
     let mut g = Gen { rng: &mut grng, cfg, next_id: 0, probe_items: vec![], all_items: vec![], sites: vec![], none_sites: vec![], recvs };
